@@ -53,12 +53,12 @@ TagSetJ(js) == {<<js[i][1], js[i][2]>> : i \in DOMAIN js}
 NoDup(s) == Cardinality(SeqSet(s)) = Len(s)
 UnitsOK(pu, pp, u, ulps) == /\ DblWithinUlps(BytesToBits(u.prec), BytesToBits(pp), ulps)
                             /\ DblWithinUlps(BytesToBits(u.unit), BytesToBits(pu), ulps + 2)
-Tagged(t, S) == {<<t, x>> : x \in S}
+Tagged(t, S) == {<<t, ToString(x)>> : x \in S}
 RAWNAME == <<82, 65, 87, 76, 73, 66>>
 
 PartialFailing(ev) ==
     LET d == Decode(ev.bytes) IN
-    IF ~d.ok THEN {"strict_decoder_rejects_file"}
+    IF ~d.ok THEN {<<"file", "strict_decoder_rejects_file">>}
     ELSE
     LET L == d.lib
         M == Meaning(L)
@@ -66,9 +66,9 @@ PartialFailing(ev) ==
         names == {L.cells[i].name : i \in DOMAIN L.cells}
     IN
     Tagged("full", LibFailing(ev.full, M))
-    \cup (IF ev.fd = 0 THEN {} ELSE {"file_handle_leak"})
+    \cup (IF ev.fd = 0 THEN {} ELSE {<<"file", "file_handle_leak">>})
     \* gds_info
-    \cup Failing(<< <<"info_error", ev.info.err = 0>>,
+    \cup Tagged("summary", Failing(<< <<"info_error", ev.info.err = 0>>,
                     <<"info_cell_names", ev.info.cells = [i \in DOMAIN L.cells |-> L.cells[i].name]>>,
                     <<"info_num_polygons", ev.info.npoly = CountKind(L, {"boundary", "box"})>>,
                     <<"info_num_paths", ev.info.npath = CountKind(L, {"path"})>>,
@@ -80,13 +80,13 @@ PartialFailing(ev) ==
                                     /\ ev.info.unit = ev.full.unit /\ ev.info.precision = ev.full.precision>>,
                     <<"gds_units", ev.units.err = 0 /\ ev.units.unit = ev.full.unit
                                    /\ ev.units.precision = ev.full.precision>>,
-                    <<"gds_timestamp", ev.ts.err = 0 /\ ev.ts.t = SubSeq(L.time, 1, 6)>> >>)
+                    <<"gds_timestamp", ev.ts.err = 0 /\ ev.ts.t = SubSeq(L.time, 1, 6)>> >>))
     \* tag filters
-    \cup UNION {Tagged(<<"filter", ev.filters[k].tags>>,
+    \cup UNION {Tagged("filter " \o ToString(ev.filters[k].tags),
                        LibFailing(ev.filters[k].proj, FilterM(M, TagSetJ(ev.filters[k].tags))))
                 : k \in DOMAIN ev.filters}
     \* target units: same database-grid content, requested unit, same precision
-    \cup UNION {Tagged(<<"target_unit", ev.targets[k].tgt>>,
+    \cup UNION {Tagged("target_unit " \o ToString(ev.targets[k].tgt),
                        LibFailing(ev.targets[k].proj, M)
                        \cup (IF /\ ev.targets[k].proj.unit = TargetUnits[ev.targets[k].tgt]
                                 /\ ev.targets[k].proj.precision = ev.full.precision
@@ -95,7 +95,7 @@ PartialFailing(ev) ==
     \* raw cells copied into a new file
     \cup UNION {LET r == ev.raws[k]
                     S == SeqSet(r.cells)
-                IN  Tagged(<<"rawcells", r.cells>>,
+                IN  Tagged("rawcells " \o ToString(r.cells),
                            LibFailing(r.proj, RawViewM(M, S, RAWNAME))
                            \cup (IF r.nraw = Len(L.cells) THEN {} ELSE {"rawcell_count"})
                            \cup (IF \A i \in DOMAIN r.cells :
@@ -106,10 +106,10 @@ PartialFailing(ev) ==
                                  THEN {} ELSE {"rawcell_units_or_error"}))
                 : k \in DOMAIN ev.raws}
     \* rewriting timestamps
-    \cup Failing(<< <<"restamp_returns_old", ev.restamp.err = 0 /\ ev.restamp.old = SubSeq(L.time, 1, 6)>>,
-                    <<"restamp_bytes", ev.restamp.bytes = Restamp(ev.bytes, ev.restamp.new)>> >>)
+    \cup Tagged("restamp", Failing(<< <<"restamp_returns_old", ev.restamp.err = 0 /\ ev.restamp.old = SubSeq(L.time, 1, 6)>>,
+                    <<"restamp_bytes", ev.restamp.bytes = Restamp(ev.bytes, ev.restamp.new)>> >>))
 
-Check(ev) == IF ev.e = "partial" THEN PartialFailing(ev) ELSE {ev.e}
+Check(ev) == IF ev.e = "partial" THEN PartialFailing(ev) ELSE {<<"event", ev.e>>}
 TInit == l = 1
 TNext == /\ l <= Len(Log) /\ l' = l + 1
          /\ LET f == Check(Ev) IN IF f = {} THEN TRUE
